@@ -280,8 +280,8 @@ impl Interp {
                                 if filt != "all" {
                                     self.problems.push("nested default tests".into());
                                 }
-                                self.loop_body(il.then_block, src, "withdef", &mut n2);
-                                if let Some(b) = il.else_block {
+                                self.loop_body(&il.then_block, src, "withdef", &mut n2);
+                                if let Some(b) = &il.else_block {
                                     let mut n3 = names.clone();
                                     self.loop_body(b, src, "nodef", &mut n3);
                                 }
